@@ -24,6 +24,7 @@ func checkC21(r *Run) {
 	r.Extra["disagreements_checked"] = fields
 	r.Extra["samples"] = samples
 	r.Units["schema items walked"] = fields
+	ruleExactDecoders(r, "C21-R6")
 	// R5 primitive guards of the decoder
 	for _, m := range []struct {
 		name string
